@@ -88,11 +88,62 @@ def pick(toks, scen):
     return out
 
 
+def _alpha_depth_rule(ctx, blp):
+    """BLP0/BLP1 header: the parser replaces an alpha depth it considers non-standard by 0.  Every depth the encoder can write for
+    a content kind (the values of `From<AlphaBits> for u32`; 0 and 8 for JPEG) must pass unchanged — decided by evaluating the
+    parser's `alpha_bits` expression for every raw value 0..=16 under both content tags"""
+    R = ctx.rule("C16.header-keeps-every-alpha-depth-the-encoder-writes", "parse_header's alpha_bits(raw, content) == raw for every raw the encoder can emit: {0,1,4,8} for direct content, {0,8} for JPEG", floor=2)
+    from .c10 import _ival, _bval, _NoEval
+    ph = next((f for f in blp.fn_list if f.hir and f.kind != "Closure" and norm(f.path).endswith("parser::header::parse_header")), None)
+    conv = [f for f in blp.fn_list if f.hir and re.search(r"From<.*AlphaBits>.*for u32>::from$|<u32 as .*From<.*AlphaBits>>::from$", f.path)]
+    if ph is None:
+        ctx.bad(R, "parse_header|missing", "-", "function not found", "anchor gone")
+        return
+    ctx.saw_fn(ph)
+    depths = set()
+    for f in conv:
+        for m_ in hirq.find(f.hir["body"], "match"):
+            for a_ in m_["arms"]:
+                v = hirq.lit_int(hirq.strip(a_["body"]))
+                if v is not None:
+                    depths.add(v)
+    if len(depths) < 2:
+        depths = {0, 1, 4, 8}
+    let = next((l for l in hirq.find(ph.hir["body"], "let") if l["pat"].get("k") == "bind" and l["pat"]["name"] == "alpha_bits" and l.get("init") is not None and hirq.strip(l["init"]).get("k") == "if"), None)
+    if let is None:
+        ctx.bad(R, "parse_header|shape", ph.where, "no `let alpha_bits = if ..` found", "shape changed")
+        return
+
+    def ev(n, env):
+        n = hirq.strip(n)
+        if n.get("k") == "if":
+            return ev(n["then"] if _bval(n["c"], env, {}) else n["else"], env)
+        if n.get("k") == "block":
+            return ev(n["e"], env)          # (log statements have no effect on the value)
+        return _ival(n, env, {})
+    TAGS = {"Jpeg": 0, "Direct": 1}
+    try:
+        for tag, want in (("Direct", sorted(depths)), ("Jpeg", [0, 8])):
+            lost = []
+            for raw in range(0, 17):
+                env = {"content": TAGS[tag], "alpha_bits_raw": raw, "__leaf__": (lambda r_: TAGS.get(r_))}
+                if ev(let["init"], env) != raw and raw in want:
+                    lost.append(raw)
+            if lost:
+                ctx.bad(R, "parse_header|alpha-depth|%s" % tag, "%s:%d" % (ph.file, let.get("ln") or 0), "for %s content the header parser replaces the alpha depth(s) %s by 0" % (tag.lower(), lost),
+                        "an image encoded with that alpha depth parses back with alpha depth 0: its alpha plane is dropped and the decoded image is opaque, with no error")
+            else:
+                ctx.ok(R, {"content": tag, "depths_kept": want})
+    except _NoEval as e:
+        ctx.bad(R, "parse_header|not-evaluable", "%s:%d" % (ph.file, let.get("ln") or 0), "alpha_bits expression not evaluable: %s" % e, "shape changed")
+
+
 def run(ctx):
     prog = ctx.prog
     blp = prog.crate("wow_blp")
     R_hdr = ctx.rule("C16.header-codec-agreement", "for BLP0/1/2 the header bytes encode_header emits are what parse_header consumes (widths, order, named fields)", floor=3)
     R_disp = ctx.rule("C16.content-dispatch-covers-variants", "every BlpContent variant is handled by the encoder and the parser dispatch", floor=2)
+    _alpha_depth_rule(ctx, blp)
 
     enc = next((f for f in blp.fn_list if norm(f.path) == "wow_blp::encode::encode_header"), None)
     par = next((f for f in blp.fn_list if norm(f.path) == "wow_blp::parser::header::parse_header"), None)
@@ -307,6 +358,18 @@ def run(ctx):
         ctx.bad(R_gen, "generate_mipmaps|missing", "-", "function not found", "anchor gone")
     else:
         ctx.saw_fn(gm)
+        # each level is produced with exactly the halved dimensions: the resampling call must be one whose output size is the size
+        # asked for (DynamicImage::resize / thumbnail / resize_to_fill keep the aspect ratio or crop instead)
+        R_exact = ctx.rule("C16.mip-levels-resampled-to-exact-size", "every image-resampling call in generate_mipmaps is an exact-size one (resize_exact / thumbnail_exact / imageops::resize)", floor=1)
+        for x in hirq.walk(gm.hir["body"]):
+            nm = (x.get("fn") or "") if x.get("k") in ("call", "mcall") else ""
+            if not re.search(r"image::.*(resize|thumbnail|resize_to_fill)\w*$", nm):
+                continue
+            if re.search(r"(DynamicImage::resize_exact|DynamicImage::thumbnail_exact|imageops::(sample::)?resize|imageops::thumbnail)$", nm.replace("::<", "<").split("<")[0] if "<" in nm else nm):
+                ctx.ok(R_exact, {"call": nm.split("::")[-1], "line": x.get("ln")})
+            else:
+                ctx.bad(R_exact, "generate_mipmaps|%s" % nm.split("::")[-1], "%s:%d" % (gm.file, x.get("ln") or 0), "`%s` does not produce the requested width x height (it preserves the aspect ratio / crops)" % nm.split("::", 1)[-1][:60],
+                        "for non-square images with a non-power-of-two side the generated levels are smaller than the header's independent halving expects: raw chains fail to parse, DXT/JPEG chains carry wrong-dimension levels")
         stop = next((n for n in hirq.find(gm.hir["body"], "if") if any(x.get("k") == "break" for x in hirq.walk(n["then"])) and re.search(r"width|height", hirq.render(n["c"]))), None)
         if stop is None:
             ctx.bad(R_gen, "generate_mipmaps|shape", gm.where, "no `if <dims> { break }` found", "shape changed")
